@@ -5,6 +5,7 @@ mod c02;
 mod c04;
 mod c05;
 mod c13;
+mod c15;
 mod c17;
 mod c18;
 mod frag;
@@ -32,6 +33,7 @@ fn main() {
         "interp-ops" => interp::ops(rest),
         "c02-spec" => c02::spec(rest),
         "c03-spec" => frag::spec(rest),
+        "c15-spec" => c15::spec(rest),
         "c13-spec" => c13::spec(rest),
         "c17-spec" => c17::spec(rest),
         "c06-spec" => props::c06(rest),
@@ -40,6 +42,10 @@ fn main() {
         "c12-spec" => props::c12(rest),
         "c14-spec" => props::c14(rest),
         "runner" => runner::main(rest),
+        "probe" => { // probe <word> <rule>... : outcome of asca::run on one word
+            let groups = [asca::RuleGroup::from("g", rest[1..].to_vec(), "")];
+            let o = util::guarded(|| asca::run(&groups, &[rest[0].clone()], &[], &[]));
+            println!("{:?}", o); 0 }
         "gen-stats" => runner::gen_stats(rest),
         _ => { eprintln!("unknown command {cmd:?}"); 2 }
     };
